@@ -1,7 +1,10 @@
 use crate::{
     manager::{
         indexed_headers,
-        layout::{segment_status_table::MAX_SEGMENT_SIZE, WriteExtStatus, DATA_REGION_OFFSET},
+        layout::{
+            segment_status_table::{MAX_SEGMENTS, MAX_SEGMENT_SIZE},
+            WriteExtStatus, DATA_REGION_OFFSET,
+        },
         ManagerError, ScratchRam, SlotManager,
     },
     spi_flash::SpiFlash,
@@ -38,8 +41,11 @@ impl<const N: usize> SlotManager<N> {
         segment_size: u32,
         firmware_segments: u32,
     ) -> Result<(), ManagerError<E>> {
-        if segment_size > MAX_SEGMENT_SIZE as _ {
+        if segment_size == 0 || segment_size > MAX_SEGMENT_SIZE as _ {
             return Err(ManagerError::SegmentsTooLarge);
+        }
+        if firmware_segments == 0 || firmware_segments > MAX_SEGMENTS as _ {
+            return Err(ManagerError::TooManySegments);
         }
         if segment_size.saturating_mul(firmware_segments)
             > self.slot_size.saturating_sub(DATA_REGION_OFFSET) as _
